@@ -731,6 +731,11 @@ func (d *urlValuesDecoder) DecodeObject(param string, sm *openapi3.Serialization
 			}
 		}
 	}
+	if !found && sm.Style == "form" && sm.Explode {
+		// an exploded form object shares the query with every other parameter: when none
+		// of its members is there the parameter is absent, not an empty object
+		return nil, false, nil
+	}
 
 	return val, found, nil
 }
